@@ -7,7 +7,7 @@
 import numpy as np
 from . import _convolve
 from . import morph
-from .internal import _get_output, _normalize_sequence, _verify_is_floatingpoint_type, _as_floating_point_array
+from .internal import _get_output, _get_axis, _normalize_sequence, _verify_is_floatingpoint_type, _as_floating_point_array
 from ._filters import mode2int, modes, _check_mode
 
 __all__ = [
@@ -103,10 +103,11 @@ def convolve1d(f, weights, axis, mode='reflect', cval=0., out=None):
         generic convolution
     '''
     weights = np.asanyarray(weights)
-    weights = weights.squeeze()
+    weights = np.atleast_1d(weights.squeeze())
     if weights.ndim != 1:
         raise ValueError('mahotas.convolve1d: only 1-D sequences allowed')
     _check_mode(mode, cval, 'convolve1d')
+    axis = _get_axis(f, axis, 'convolve1d')
     if f.flags.contiguous and len(weights) < f.shape[axis]:
         weights = weights.astype(np.double, copy=False)
         indices = [a for a in range(f.ndim) if a != axis] + [axis]
